@@ -163,6 +163,14 @@ def step (line : String) : String :=
     match parseIntervals? a, parseIntervals? b with
     | some a, some b => showBool (areIntervalsEqual a b)
     | _, _ => "bad-op"
+  | ["modeq", a, b] =>
+    match parseMod? a, parseMod? b with
+    | some a, some b => showBool (modEq a b)
+    | _, _ => "bad-op"
+  | ["iveq", a, b] =>
+    match parseInterval? a, parseInterval? b with
+    | some a, some b => showBool (ivEq a b)
+    | _, _ => "bad-op"
   | ["valeq", a, b] =>
     match parseVal? a, parseVal? b with
     | some a, some b => showBool (valEq a b)
